@@ -48,6 +48,7 @@ package limit
 //   gBatch        elements sent since the last Sleep
 //   gK            number of Sleeps so far (= index of the current batch)
 //   gT0           clock value at creation
+//   gQ, gI        the configured rate (Opts.Limit.Quantity, Opts.Limit.Interval at New)
 
 //@ ghost var gIn map[int]T
 //@ ghost var gInN int
@@ -56,6 +57,8 @@ package limit
 //@ ghost var gBatch int
 //@ ghost var gK int
 //@ ghost var gT0 time
+//@ ghost var gQ int
+//@ ghost var gI int
 
 //@ event recv dsc.opts.Input (item, opened)
 //@   effect gIn := ite(opened, store(gIn, gInN, item), gIn)
@@ -65,7 +68,7 @@ package limit
 // The formulas of C04 and C12 at the moment an element leaves:
 //@ event send dsc.output (v)
 //@   requires [C12] in-order-no-loss-no-dup: gOutN < gInN && v == gIn[gOutN]
-//@   requires [C04] quota: gOutN + 1 <= dsc.opts.Limit.Quantity * ((gClock - gT0) / dsc.opts.Limit.Interval + 1)
+//@   requires [C04] quota: gOutN + 1 <= gQ * ((gClock - gT0) / gI + 1)
 //@   effect gOutN := gOutN + 1
 //@   effect gBatch := gBatch + 1
 
@@ -73,26 +76,26 @@ package limit
 //@   requires [C12] closed-only-after-everything-was-forwarded: gClosed && gOutN == gInN
 
 //@ event call time.Sleep (d)
-//@   requires [C12] pause-only-after-a-full-batch: gBatch == dsc.opts.Limit.Quantity
-//@   requires [C12] pause-at-most-interval: d <= dsc.opts.Limit.Interval
+//@   requires [C12] pause-only-after-a-full-batch: gBatch == gQ
+//@   requires [C12] pause-at-most-interval: d <= gI
 //@   effect gK := gK + 1
 //@   effect gBatch := 0
 
 //@ pred WF(dsc)
-//@   [*] dsc != nil && dsc.opts.Limit.Interval > 0 && dsc.opts.Limit.Quantity > 0
+//@   [* C04 C12] configured-rate-is-used: dsc != nil && dsc.opts.Limit.Quantity == gQ && dsc.opts.Limit.Interval == gI && gI > 0 && gQ > 0
 //@   [*] gK >= 0 && gBatch >= 0 && gOutN >= 0 && gInN >= 0
 
 // Batch k starts no earlier than gT0 + k*Interval and at most Quantity*k elements left before it.
 //@ pred PACE(dsc)
-//@   [C04] gOutN <= dsc.opts.Limit.Quantity * gK + gBatch
-//@   [C04] gClock >= gT0 + gK * dsc.opts.Limit.Interval
+//@   [C04] gOutN <= gQ * gK + gBatch
+//@   [C04] gClock >= gT0 + gK * gI
 
 //@ func (*Discipline).send
 //@   requires [*] WF(dsc)
 //@   ensures [*] WF(dsc)
 //@   requires [C12] gOutN + 1 == gInN && item == gIn[gOutN]
 //@   requires [C04] PACE(dsc)
-//@   requires [C04] gBatch < dsc.opts.Limit.Quantity
+//@   requires [C04] gBatch < gQ
 //@   modifies gOutN, gBatch, gClock
 //@   ensures [* C04 C12] gOutN == old(gOutN) + 1 && gBatch == old(gBatch) + 1 && gClock >= old(gClock)
 
@@ -103,8 +106,8 @@ package limit
 //@   requires [C12] gInN == gOutN && !gClosed
 //@   requires [C04] PACE(dsc)
 //@   modifies gIn, gInN, gOutN, gClosed, gBatch, gClock
-//@   ensures [* C04 C12] gBatch <= dsc.opts.Limit.Quantity && gOutN == old(gOutN) + gBatch
-//@   ensures [* C04 C12] !result ==> gBatch == dsc.opts.Limit.Quantity
+//@   ensures [* C04 C12] gBatch <= gQ && gOutN == old(gOutN) + gBatch
+//@   ensures [* C04 C12] !result ==> gBatch == gQ
 //@   ensures [* C04 C12] gClock >= old(gClock)
 //@   ensures [C04] PACE(dsc)
 //@   ensures [C12] gInN == gOutN && (result <==> gClosed)
@@ -121,8 +124,8 @@ package limit
 //@   requires [C12] gInN == gOutN && !gClosed
 //@   requires [C04] PACE(dsc)
 //@   modifies gIn, gInN, gOutN, gClosed, gBatch, gClock
-//@   ensures [* C04 C12] gBatch <= dsc.opts.Limit.Quantity && gOutN == old(gOutN) + gBatch
-//@   ensures [* C04 C12] !result1 ==> gBatch == dsc.opts.Limit.Quantity && result0 >= 0
+//@   ensures [* C04 C12] gBatch <= gQ && gOutN == old(gOutN) + gBatch
+//@   ensures [* C04 C12] !result1 ==> gBatch == gQ && result0 >= 0
 //@   ensures [C04] !result1 ==> gClock - result0 >= old(gClock) && gClock >= old(gClock)
 //@   ensures [C12] gInN == gOutN && (result1 <==> gClosed)
 
@@ -130,11 +133,11 @@ package limit
 //@   requires [*] WF(dsc)
 //@   ensures [*] WF(dsc)
 //@   requires [*] duration >= 0
-//@   requires [C12] gBatch == dsc.opts.Limit.Quantity
-//@   requires [C04] gClock - duration >= gT0 + gK * dsc.opts.Limit.Interval
+//@   requires [C12] gBatch == gQ
+//@   requires [C04] gClock - duration >= gT0 + gK * gI
 //@   modifies gClock, gK, gBatch
 //@   ensures [* C04 C12] gK == old(gK) + 1 && gBatch == 0
-//@   ensures [C04] gClock >= gT0 + gK * dsc.opts.Limit.Interval
+//@   ensures [C04] gClock >= gT0 + gK * gI
 
 //@ func (*Discipline).loop
 //@   requires [*] WF(dsc)
@@ -162,7 +165,7 @@ package limit
 // The ghost state of a discipline that does not exist yet is empty; gT0 is the clock at creation.
 // The capacity of the input plus one is a size the runtime can allocate (source comment in New).
 //@ func New
-//@   requires [*] ghost-initial-state: gInN == 0 && gOutN == 0 && !gClosed && gBatch == 0 && gK == 0 && gT0 == gClock
+//@   requires [*] ghost-initial-state: gInN == 0 && gOutN == 0 && !gClosed && gBatch == 0 && gK == 0 && gT0 == gClock && gQ == opts.Limit.Quantity && gI == opts.Limit.Interval
 //@   requires [*] allocatable: cap(opts.Input) + 1 < two63
 //@   ensures [C04 C12] (result1 == nil) <==> (opts.Input != nil && opts.Limit.Interval > 0 && opts.Limit.Quantity > 0)
 //@   ensures [*] result1 == nil ==> result0 != nil
